@@ -119,6 +119,11 @@ pub struct Sim<W: World> {
     /// polls after which tokio's cooperative budget of the current turn was used up (only
     /// constrained tasks consume it)
     pub budget_exhausted: u64,
+    /// fault kind "spurious poll": now and then a task of the code under test (a connection task,
+    /// the bridge) is polled although nothing has woken it - legal for any future, and what
+    /// `select!` / `join!` / a manual poll in an enclosing future do all the time
+    pub spurious: bool,
+    pub spurious_polls: u64,
     spawn_q: Rc<RefCell<Vec<(String, usize, LocalFut)>>>,
 }
 
@@ -141,6 +146,8 @@ impl<W: World> Sim<W> {
             conn0_polls: vec![],
             trace: if std::env::var_os("SIM_TRACE").is_some() { Some(vec![]) } else { None },
             budget_exhausted: 0,
+            spurious: false,
+            spurious_polls: 0,
             spawn_q: Rc::new(RefCell::new(vec![])),
         }
     }
@@ -172,13 +179,15 @@ impl<W: World> Sim<W> {
         self.slots.iter().any(|s| s.name == name && s.fut.is_none())
     }
 
-    fn choose(&mut self, ready: &[usize], extra: usize) -> usize {
-        let n = ready.len() + extra;
+    fn choose(&mut self, ready: &[usize], extra: usize, spurious_option: bool) -> usize {
+        let n = ready.len() + extra + spurious_option as usize;
         let c = match &mut self.chooser {
             Chooser::Seeded(rng, w) => {
                 // weighted by class; a zero weight still leaves an option schedulable (weight 1)
                 let wt = |k: usize| -> u64 {
-                    if k < ready.len() { (w[self.slots[ready[k]].cls] as u64).max(1) } else { (w[CLS_LINK] as u64).max(1) }
+                    // (the last option may be "a spurious poll": it gets half the weight of a link action)
+                    let scale = if spurious_option { 2 } else { 1 };
+                    if k < ready.len() { (w[self.slots[ready[k]].cls] as u64).max(1) * scale } else if spurious_option && k + 1 == n { (w[CLS_LINK] as u64).max(1) } else { (w[CLS_LINK] as u64).max(1) * scale }
                 };
                 let tot: u64 = (0..n).map(wt).sum();
                 let mut r = rng.next() % tot;
@@ -228,6 +237,14 @@ impl<W: World> Sim<W> {
                 };
                 let extra = self.world.borrow_mut().enabled();
                 let n = ready.len() + extra;
+                // tasks of the code under test that are asleep: candidates for a spurious poll,
+                // offered as one more option while anything else is enabled (never on its own:
+                // it must not keep a quiescent system busy)
+                let sleepers: Vec<usize> = if self.spurious && n > 0 {
+                    (0..self.slots.len()).filter(|i| self.slots[*i].fut.is_some() && !ready.contains(i) && (self.slots[*i].cls == CLS_CONN0 || self.slots[*i].cls == CLS_CONN1 || self.slots[*i].name.starts_with("bridge"))).collect()
+                } else {
+                    vec![]
+                };
                 if n == 0 {
                     if !yielded {
                         yielded = true;
@@ -253,9 +270,17 @@ impl<W: World> Sim<W> {
                 let _ = &dl_sleep;
                 self.steps += 1;
                 self.t_last = tokio::time::Instant::now();
-                let c = self.choose(&ready, extra);
-                if c < ready.len() {
-                    let id = ready[c];
+                let mut c = self.choose(&ready, extra, !sleepers.is_empty());
+                let mut spurious_id = None;
+                if c == n && !sleepers.is_empty() {
+                    // which sleeper: a second decision (recorded like the first)
+                    let k = self.choose(&sleepers, 0, false);
+                    spurious_id = Some(sleepers[k]);
+                    self.spurious_polls += 1;
+                    c = 0;
+                }
+                if c < ready.len() || spurious_id.is_some() {
+                    let id = spurious_id.unwrap_or_else(|| ready[c]);
                     self.sh.lock().unwrap().ready.remove(&id);
                     if let Some(mut fut) = self.slots[id].fut.take() {
                         let w = self.slots[id].waker.clone();
